@@ -36,6 +36,10 @@ NEGATIVE = [
     ("cycle2", {"main.asm": [" INCLUDE a.asm\n"], "a.asm": [" NOP \n", " INCLUDE b.asm\n"], "b.asm": [" INCLUDE a.asm\n"]}),
     ("cycle3", {"main.asm": [" INCLUDE a.asm\n"], "a.asm": [" INCLUDE b.asm\n"], "b.asm": [" INCLUDE c.asm\n"], "c.asm": [" INCLUDE a.asm\n"]}),
     ("cycle-via-main", {"main.asm": [" INCLUDE a.asm\n"], "a.asm": [" INCLUDE main.asm\n"]}),
+    ("self-dot-slash", {"main.asm": [" INCLUDE ./a.asm\n"], "a.asm": [" NOP \n", " INCLUDE ./a.asm\n"]}),
+    ("cycle2-mixed-spelling", {"main.asm": [" INCLUDE a.asm\n"], "a.asm": [" INCLUDE ./b.asm\n"], "b.asm": [" INCLUDE ./a.asm\n"]}),
+    ("cycle-dotdot", {"main.asm": [" INCLUDE inc/../a.asm\n"], "a.asm": [" INCLUDE inc/../a.asm\n"], "inc/x.asm": [" NOP \n"]}),
+    ("missing-dot-slash", {"main.asm": [" INCLUDE ./nosuch.asm\n"]}),
 ]
 
 
@@ -127,6 +131,7 @@ def execute_negative(case):
     labels = ["negative"]
     with driver.TempDir() as tmp:
         for name, flines in case["files"].items():
+            os.makedirs(os.path.dirname(os.path.join(tmp, name)), exist_ok=True)
             with open(os.path.join(tmp, name), "w", newline="") as fh:
                 fh.write("".join(flines))
         out = driver.assemble(list(case["files"]["main.asm"]), cwd=tmp)
